@@ -23,6 +23,87 @@ type c08Case struct {
 	Fresh     int      `json:"fresh,omitempty"`      // compare only: this many units (in walk order) are updated first, so that stale and current rules are mixed
 	FreshLast bool     `json:"fresh_last,omitempty"` // the updated units are the last ones in walk order instead of the first
 	Pad       int      `json:"pad,omitempty"`        // 1, 2: chain offsets in file names are written with leading zeros; 3: offset 0 is written as -chain0
+	// Many > 0: a synthetic tree of that many assembly files (each includes a word list) is processed under a limit of
+	// open file descriptors that every single invocation satisfies with room to spare (the project is not used)
+	Many int `json:"many,omitempty"`
+}
+
+// c08Many: what a process may keep open is not an input either. --all under a descriptor limit must do what the single
+// invocations do under the same limit.
+func c08Many(env *core.Env, c *c08Case) core.Verdict {
+	sandbox := env.TempDir()
+	defer os.RemoveAll(sandbox)
+	const limit = 40
+	tree := sut.Tree{"regex-assembly/include/words.ra": "alpha\nbeta\n", "regex-assembly/exclude/": "", "regex-assembly/toolchain.yaml": crsToolchainYAML, "crs-setup.conf.example": "# OWASP CRS ver.4.0.0\n"}
+	var conf strings.Builder
+	var units []string
+	for i := 0; i < c.Many; i++ {
+		id := fmt.Sprintf("9421%02d", i+10)
+		units = append(units, id)
+		tree["regex-assembly/"+id+".ra"] = "   ##!> include words\n     entry" + id + "\n"
+		conf.WriteString("SecRule ARGS \"@rx stale" + id + "\" \\\n    \"id:" + id + ",\\\n    phase:2,\\\n    deny\"\n")
+	}
+	tree["rules/REQUEST-942-APPLICATION-ATTACK-SQLI.conf"] = conf.String()
+	var allArgs []string
+	single := func(key string) []string { return nil }
+	switch c.Cmd {
+	case "update":
+		allArgs, single = []string{"regex", "update", "--all"}, func(key string) []string { return []string{"regex", "update", key} }
+	case "format":
+		allArgs, single = []string{"regex", "format", "--all"}, func(key string) []string { return []string{"regex", "format", key} }
+	case "compare":
+		allArgs, single = []string{"regex", "compare", "--all"}, func(key string) []string { return []string{"regex", "compare", key} }
+	default:
+		allArgs, single = []string{"-o", "github", "regex", "compare", "--all"}, func(key string) []string { return []string{"-o", "github", "regex", "compare", key} }
+	}
+	v := core.Verdict{Status: core.Held, Nontrivial: true, Features: []string{"cmd:" + c.Cmd, "descriptor-limit", fmt.Sprintf("files:%d", c.Many)}, Counts: map[string]int{}}
+	run := func(root string, args []string) *sut.Result {
+		return sut.Run(sut.Cmd{Bin: env.Bin, Args: append([]string{"-d", root}, args...), Dir: root, NoFile: limit})
+	}
+	rootA, rootB := filepath.Join(sandbox, "all", "crs"), filepath.Join(sandbox, "single", "crs")
+	for _, r := range []string{rootA, rootB} {
+		if err := tree.Write(r); err != nil {
+			return core.Incon("cannot write tree: %v", err)
+		}
+	}
+	ra_ := run(rootA, allArgs)
+	if ra_.Class() == sut.ClassTimeout {
+		return core.Incon("watchdog hit, not judged: %s", describe(ra_))
+	}
+	if ra_.Class() == sut.ClassFault {
+		return core.Viol("crash", "%v crashed: %s", allArgs, describe(ra_))
+	}
+	var outs []string
+	failed := 0
+	for _, u := range units {
+		r := run(rootB, single(u))
+		if r.Class() == sut.ClassTimeout {
+			return core.Incon("watchdog hit, not judged: %s", describe(r))
+		}
+		if r.Exit != 0 {
+			failed++
+		}
+		outs = append(outs, string(r.Stdout))
+		v.Counts["single_invocations_under_the_limit"]++
+	}
+	if c.Cmd == "format" {
+		_ = run(rootB, []string{"regex", "format", "words"})
+	}
+	if (c.Cmd == "update" || c.Cmd == "format") && failed > 0 {
+		return core.Incon("%d single invocations fail under a limit of %d descriptors", failed, limit)
+	}
+	if d := sut.Diff(sut.Snap(rootA), sut.Snap(rootB)); len(d) > 0 {
+		return core.Viol("all-differs-from-singles-under-descriptor-limit:"+c.Cmd, "with at most %d open descriptors %v leaves other files than the %d single invocations under the same limit: %v\n--all: %s", limit, allArgs, len(units), d, describe(ra_))
+	}
+	if strings.HasPrefix(c.Cmd, "compare") {
+		a, b := compareBlocks(string(ra_.Stdout)), compareBlocks(strings.Join(outs, "\n"))
+		if !eqStrings(a, b) {
+			return core.Viol("all-differs-from-singles-under-descriptor-limit:"+c.Cmd, "with at most %d open descriptors compare --all reports %d rules, the single invocations %d\n--all: %s", limit, len(a), len(b), describe(ra_))
+		}
+	} else if ra_.Exit != 0 {
+		return core.Viol("all-differs-from-singles-under-descriptor-limit:"+c.Cmd, "with at most %d open descriptors %v fails while every single invocation succeeds: %s", limit, allArgs, describe(ra_))
+	}
+	return v
 }
 
 var reCompareBlock = regexp.MustCompile(`(?m)^Regex of (\d{6}) has (not changed|changed!)`)
@@ -58,6 +139,9 @@ func sortedLines(s string) string {
 
 func c08Check(env *core.Env, cc core.Case) core.Verdict {
 	c := cc.(*c08Case)
+	if c.Many > 0 {
+		return c08Many(env, c)
+	}
 	sandbox := env.TempDir()
 	defer os.RemoveAll(sandbox)
 	tree := c.Proj.tree()
@@ -80,6 +164,22 @@ func c08Check(env *core.Env, cc core.Case) core.Verdict {
 			// the assembly directory is kept elsewhere and linked into the checkout
 			if err := os.Rename(filepath.Join(root, "regex-assembly"), filepath.Join(root, "assembly-kept-elsewhere")); err != nil {
 				return root, err
+			}
+			// (directly, through a second link in the same or in another directory, or by a relative path that leaves the checkout and comes back)
+			switch (len(targets)/4 + c.Pad) % 4 {
+			case 1:
+				if err := os.Symlink("assembly-kept-elsewhere", filepath.Join(root, "assembly-current")); err != nil {
+					return root, err
+				}
+				return root, os.Symlink("assembly-current", filepath.Join(root, "regex-assembly"))
+			case 2:
+				_ = os.MkdirAll(filepath.Join(root, "links"), 0o755)
+				if err := os.Symlink("../assembly-kept-elsewhere", filepath.Join(root, "links", "current")); err != nil {
+					return root, err
+				}
+				return root, os.Symlink("links/current", filepath.Join(root, "regex-assembly"))
+			case 3:
+				return root, os.Symlink("../crs/assembly-kept-elsewhere", filepath.Join(root, "regex-assembly"))
 			}
 			return root, os.Symlink("assembly-kept-elsewhere", filepath.Join(root, "regex-assembly"))
 		}
@@ -318,13 +418,16 @@ func init() {
 	register(&core.Property{
 		ID:    "C08",
 		Level: "exploration",
-		Rule: "generated CRS trees with 2..n assembly files (sharing stored-expression name st1 and definition name d1, different flags/prefixes/suffixes, chain offsets, include and include-except users, cmdline blocks) are copied; copy A gets update / format / compare (text and github) --all, copies B1..B3 get the same command once per file in three PRNG-chosen orders. For half of the compare cases some rules are updated first, so that current and stale rules are mixed. A part of the trees spell chain offsets in file names with leading zeros or as -chain0. A quarter of the trees each carry a leak construction: the last file in walk order appends a stored name that only the first file stores (must fail like the single invocation does), references a definition that only the first file makes, or follows a file with flags, prefix and suffix. " +
+		Rule: "generated CRS trees with 2..n assembly files (sharing stored-expression name st1 and definition name d1, different flags/prefixes/suffixes, chain offsets, include and include-except users, cmdline blocks) are copied; copy A gets update / format / compare (text and github) --all, copies B1..B3 get the same command once per file in three PRNG-chosen orders. For half of the compare cases some rules are updated first, so that current and stale rules are mixed. A part of the trees spell chain offsets in file names with leading zeros or as -chain0. A quarter of the trees each carry a leak construction: the last file in walk order appends a stored name that only the first file stores (must fail like the single invocation does), references a definition that only the first file makes, or follows a file with flags, prefix and suffix. A further lane runs the four commands on a synthetic tree of 50..70 assembly files (each includes a word list, a configuration file exists) with at most 40 open file descriptors (prlimit): --all must do what the single invocations do under the same limit. " +
 			"Oracle: the snapshot of A equals the snapshot of every B (for compare: the multiset of per-rule report blocks, and in github mode failure iff any single invocation fails); exit status of --all non-zero iff a single invocation fails. Non-trivial = >= 2 addressable files.",
 		Cases: func(env *core.Env, rng *rand.Rand) []core.Case {
 			n := env.N(300, 3000)
 			var cs []core.Case
 			for i := 0; i < n; i++ {
 				cs = append(cs, c08Gen(rng, i))
+			}
+			for i := 0; i < env.N(8, 40); i++ {
+				cs = append(cs, &c08Case{Cmd: []string{"update", "format", "compare", "compare-github"}[i%4], Many: 50 + 10*(i%3)})
 			}
 			return cs
 		},
